@@ -943,6 +943,7 @@ fn do_xargs(args: &[&str]) -> Result<CommandResult, XargsError> {
                 .short('i')
                 .num_args(0..=1)
                 .require_equals(true)
+                .default_missing_value("{}")
                 .value_parser(clap::value_parser!(String))
                 .value_name("R")
                 .help("If R is specified, the same as -I R; otherwise, the same as -I {}"),
